@@ -92,6 +92,57 @@ def ret_exprs(an):
     return out
 
 
+def id_is_v4_at(ctx, an, bb):
+    """(some, v4): do the path constraints at block bb imply that self.id() is
+    Some(..) and that its payload equals "v4"?  Forms: `match id() { Some(x) if
+    x == "v4" }`, `is_some_and(|x| x == "v4")`, `id().as_deref() == Some("v4")`
+    (and their negations on the other edge)."""
+    IDCALL = P.call(target="Enr::<K>::id", args=[P.param(1)])
+    some = False
+    v4 = False
+    for d, cond, allowed, alll in an.constraints_at(bb):
+        c = strip(cond)
+        neg0 = False
+        c0 = c
+        while c0.k == "unop" and c0.a[0] == "Not":
+            neg0 = not neg0
+            c0 = strip(c0.a[1])
+        true_edge = ("otherwise" in allowed or 1 in allowed) and 0 not in allowed
+        false_edge = allowed == {0}
+        holds = (true_edge and not neg0) or (false_edge and neg0)
+        fails = (false_edge and not neg0) or (true_edge and neg0)
+        # id().is_some_and(|id| id == "v4")
+        if c0.k == "call" and c0.a[0].name == "is_some_and" and len(c0.a[1]) == 2 and P.match(c0.a[1][0], IDCALL) is not None and holds:
+            cl0 = closure_of(c0.a[1][1])
+            if cl0 is not None:
+                from kernel import E
+                body0 = closures.closure_return(ctx, cl0[0], cl0[1], [E("closure-arg")]) or []
+                if len(body0) == 1:
+                    b0 = strip(body0[0])
+                    if b0.k == "call" and b0.a[0].name == "eq" and any(strip(x).k == "const" and strip(x).a[0] == b"v4" for x in b0.a[1]) and any(y.k == "closure-arg" for x in b0.a[1] for y in x.walk()):
+                        some = v4 = True
+        if c.k == "discr" and P.match(c.a[0], IDCALL) is not None and allowed == {"Some"}:
+            some = True
+        if c0.k == "call" and c0.a[0].name in ("eq", "ne") and len(c0.a[1]) == 2:
+            sides = [strip(x) for x in c0.a[1]]
+            idv = [x for x in sides if any(P.match(y, IDCALL) is not None for y in x.walk())]
+            equal = (c0.a[0].name == "eq" and holds) or (c0.a[0].name == "ne" and fails)
+            lit = [x for x in sides if x.k == "const" and x.a[0] == b"v4"]
+            if lit and idv and equal:
+                v4 = True
+            # whole-option comparison: id().as_deref() == Some("v4")
+            opt = [x for x in sides if x.k == "const" and x.a[0] == ("variant", "Some", b"v4")]
+            if opt and idv and equal:
+                other = [x for x in sides if x not in opt]
+                # the other side is id() itself, possibly viewed through as_deref/as_ref
+                o = other[0] if other else None
+                while o is not None and o.k == "call" and o.a[0].name in ("as_deref", "as_ref", "as_str") and o.a[1]:
+                    o = strip(o.a[1][0])
+                if o is not None and P.match(o, IDCALL) is not None:
+                    some = v4 = True
+    return some, v4
+
+
 def verify_rule(ctx, report):
     """R2: shape of Enr::verify; returns True if verify implies id == v4"""
     cfg = ctx.config
@@ -116,36 +167,7 @@ def verify_rule(ctx, report):
         elif P.match(es, VCALL) is not None:
             n_true += 1
             # control dependence on id == Some("v4")
-            some = False
-            v4 = False
-            for d, cond, allowed, alll in an.constraints_at(bb):
-                c = strip(cond)
-                # id().is_some_and(|id| id == "v4")
-                neg0 = False
-                c0 = c
-                while c0.k == "unop" and c0.a[0] == "Not":
-                    neg0 = not neg0
-                    c0 = strip(c0.a[1])
-                if c0.k == "call" and c0.a[0].name == "is_some_and" and len(c0.a[1]) == 2 and P.match(c0.a[1][0], P.call(target="Enr::<K>::id", args=[P.param(1)])) is not None:
-                    truth0 = (("otherwise" in allowed or 1 in allowed) and 0 not in allowed) if not neg0 else allowed == {0}
-                    cl0 = closure_of(c0.a[1][1])
-                    if truth0 and cl0 is not None:
-                        from kernel import E
-                        body0 = closures.closure_return(ctx, cl0[0], cl0[1], [E("closure-arg")]) or []
-                        if len(body0) == 1:
-                            b0 = strip(body0[0])
-                            if b0.k == "call" and b0.a[0].name == "eq" and any(strip(x).k == "const" and strip(x).a[0] == b"v4" for x in b0.a[1]) and any(y.k == "closure-arg" for x in b0.a[1] for y in x.walk()):
-                                some = v4 = True
-                if c.k == "discr" and P.match(c.a[0], P.call(target="Enr::<K>::id", args=[P.param(1)])) is not None and allowed == {"Some"}:
-                    some = True
-                if c.k == "call" and c.a[0].name in ("eq", "ne") and len(c.a[1]) == 2:
-                    sides = [strip(x) for x in c.a[1]]
-                    lit = [x for x in sides if x.k == "const" and x.a[0] == b"v4"]
-                    idv = [x for x in sides if any(P.match(y, P.call(target="Enr::<K>::id", args=[P.param(1)])) is not None for y in x.walk())]
-                    if lit and idv:
-                        truth = ("otherwise" in allowed or 1 in allowed) and 0 not in allowed
-                        if (c.a[0].name == "eq" and truth) or (c.a[0].name == "ne" and allowed == {0}):
-                            v4 = True
+            some, v4 = id_is_v4_at(ctx, an, bb)
             ok = some and v4
             why = "the signature check is not conditional on id() == Some(\"v4\")"
         else:
@@ -474,6 +496,9 @@ def digest_of_msg(ctx, an, e, msg_param):
     state = P.call(name="chain_update", full="Keccak256", args=[P.call(name="new", full="Keccak256", args=[]), M])
     if P.match(es, state) is not None:
         return "state"
+    # Digest::new_with_prefix(msg) is documented as new().chain_update(msg)
+    if P.match(es, P.call(name="new_with_prefix", full="Keccak256", args=[M])) is not None:
+        return "state"
     if P.match(es, P.call(target="digest", args=[M])) is not None and es.a[0].local:
         return "bytes"
     if P.match(es, P.call(name="digest", full="Keccak256", args=[M])) is not None:
@@ -728,4 +753,7 @@ def run(ctx, report):
     from rules import c02
     # "over exactly the pairs the decoded record then reports": duplicate keys would be collapsed before the signature is checked
     c02.run(ctx, Only(report, {"KEYS": "KEYS"}))
+    # "a byte string or text is accepted only if ..": the text is that record's text form (exact prefix handling)
+    from rules import c12
+    c12.run(ctx, Only(report, {"PREFIX": "TEXT-PREFIX"}))
 
